@@ -9,8 +9,9 @@ drivers.  Absent third-party modules (`usb`, `hid`, `pymodbus.client.sync`)
 are replaced by empty stubs so that the legacy drivers import.
 
 Every constant becomes `def <group>_<NAME> : Nat`, every group additionally a
-sorted association list `<group> : List (String × Nat)`, so that a removed,
-added or changed constant changes a `decide` obligation in Props/C18.
+sorted association list `<group> : List (String × Nat)` (informational).  Props/C18 pins the constants the wire
+formats are made of BY NAME: a removed or changed one breaks a `decide` obligation; constants a maintainer ADDS
+(new names for literals) are listed and change nothing.
 """
 import importlib
 import struct as _struct
